@@ -149,7 +149,7 @@ func DirectedNestedTx(rng *rand.Rand, mons ...vnet.Monitor) *Built {
 		n = []int{4, 5, 7}[rng.Intn(3)]
 		nOld, nNew = 1+rng.Intn(4), 1+rng.Intn(4)
 	}
-	cfg := vnet.Config{Seed: 777, Profile: "directed-nested-tx", N: n, Heights: 1, AMEV: -1, TPB: time.Second, TxPerBlock: 4,
+	cfg := vnet.Config{Seed: 777, Profile: "directed-nested-tx", N: n, Heights: 1, AMEV: -1, TPB: time.Second, TxPerBlock: 8,
 		Epoch: time.Date(2031, 5, 1, 0, 0, 0, 0, time.UTC).UnixNano(), MaxSteps: 1000}
 	if rng != nil {
 		cfg.Seed = rng.Int63()
@@ -208,6 +208,14 @@ func DirectedNestedTx(rng *rand.Rand, mons ...vnet.Monitor) *Built {
 	// the others are in view 1 now; its primary proposes other transactions (the old ones left its pool)
 	for _, t := range old {
 		delete(next.Pool, t.Hash())
+	}
+	if rng != nil && rng.Intn(2) == 0 {
+		// the view-1 primary proposes some of the old transactions again, and x's application does not
+		// pool what it hands over: x has to request them a second time for the new proposal
+		x.NoPoolOnSupply = true
+		k := 1 + rng.Intn(len(old))
+		nw = append(nw, old[len(old)-k:]...)
+		rng.Shuffle(len(nw), func(i, j int) { nw[i], nw[j] = nw[j], nw[i] })
 	}
 	for _, t := range nw {
 		next.Pool[t.Hash()] = t
